@@ -392,7 +392,8 @@ static int handles_balanced(int expect_orig) {
     for (int i = 0; i < 8; i++) if (clone_releases[i] != (i < n_clones ? 1 : 0)) return 0;
     return 1;
 }
-static void m_bdrop(void *p) { if (p != the_inst) bad_release = 1; box_drops++; }
+static int ctx_live_at_bdrop = -1;
+static void m_bdrop(void *p) { if (p != the_inst) bad_release = 1; box_drops++; ctx_live_at_bdrop = ctx_live; }
 static int called[64];
 static const void *seen_cont;
 '''
@@ -545,6 +546,10 @@ def gen_harness(model, types, header_path, ws):
             b += "    { int c = 0; for (int i = 0; i < 64; i++) c += called[i]; CHECK(c == 0, \"%s: calls no vtable entry\"); }\n" % desc
             b += "    CHECK(box_drops == %d, \"%s: instance released exactly once\");\n" % (1 if ty["inner"] == "Box" else 0, desc)
             b += "    CHECK(ctx_live == 0, \"%s: context released exactly once\");\n" % desc
+            if ty["inner"] == "Box" and ty["ctx"] == "Arc":
+                # Rust drops the instance, then the context (the context typically keeps the code of the instance's release
+                # function loaded): the C helper must release in the same order
+                b += "    CHECK(ctx_live_at_bdrop >= 1, \"%s: the instance is released while the context is still held\");\n" % desc
             b += "    CHECK(!bad_release, \"%s: releases use the object's own pointers\");\n}\n" % desc
             o.append(b)
             tests.append((tn, desc, w["name"]))
@@ -650,7 +655,7 @@ def gcc_replay(cpath, mdir, vals):
     return (rc == 1 and "FAILED:" in out), out[-400:]
 
 
-def helper_checks():
+def helper_checks(which="helpers"):
     """The C helper snippets alone (used by C15: they are the C side of callbacks and iterators). Returns
     {"failed": [...], "props": n, "secs": s, "error": str|None, "harness": path}."""
     os.makedirs(WORK, exist_ok=True)
@@ -669,8 +674,11 @@ def helper_checks():
     cpath = os.path.join(mdir, "harness.c")
     open(cpath, "w").write(hsrc)
     res = run_cbmc(cpath, mdir)
-    helper = [f for f in res["failed"] if f["desc"].startswith(("buffer iterator", "static collect")) or "buf_iter_next" in f["id"]
-              or "cb_collect" in f["id"]]
+    if which == "helpers":
+        helper = [f for f in res["failed"] if f["desc"].startswith(("buffer iterator", "static collect")) or "buf_iter_next" in f["id"]
+                  or "cb_collect" in f["id"]]
+    else:   # "drop": the *_drop helpers and the ctx_arc_clone / ctx_arc_drop / cont_box_drop snippets they use
+        helper = [f for f in res["failed"] if "drop helper" in f["desc"]]
     replayed = []
     for f in helper:
         vals = trace_values(res["out"], f["desc"])
